@@ -363,6 +363,10 @@ def run(ctx, report):
                       '(substract_mems evaluated from the source on cell width x store width x byte offset, all overlapping placements)', floor=60)
     remainder_rule(ctx, R13)
 
+    R14c = report.rule('C07.D14', 'a copied pool (mpool.copy) carries every attribute the pool methods update: read-backs in a forked state see the cells stored before the fork (shared with C12.D16)', floor=2)
+    from .c12 import state_copy_rule
+    state_copy_rule(R14c, [ctx.mod('eval_abs')])
+
     R12 = report.rule('C07.D12', 'cell addresses have one simplified form: base + 0, 0 + base and base + c + (-c) simplify to the base itself for sums of one, two and three terms '
                       '(memory cells are keyed by the simplified address; the overlap probes compute neighbours as address + constant)', floor=10)
     simpeval.emit_groups(R12, ctx, 'neutral', 'two spellings of one address')
